@@ -159,8 +159,17 @@ def _check(world: World, host: AppHost, session: Session, out: Outcome) -> None:
         stuck = [i for r in plan.reqs for i in by_tag.get(r.tag, [])
                  if len(i.leftover) >= cfg.max_app_queue_size]
         cause = "recv-queue-full" if stuck else "other"
-        if any(str(i.end) == "raised:BusyResourceError" for r in plan.reqs for i in by_tag.get(r.tag, [])):
-            # trio only: the reader closing the connection collided with the application's last write
+        completed = 0
+        for r in plan.reqs:
+            for i in by_tag.get(r.tag, []):
+                if any(e[2].get("type") == "http.response.body" and not e[2].get("more_body", False)
+                       and e[3] == "ok" for e in i.sends):
+                    completed += 1
+        n_app_responses = len([r for r in parser.responses if r.header(b"x-echo") is not None])
+        if world.worker == "trio" and not stuck and completed > n_app_responses and not _client_gone(conn):
+            # trio only: every send() of the application returned, yet the tail of its response never
+            # reached the wire - the reader closing the connection (send_eof) collided with the last
+            # write waiting for the send lock (known finding F13)
             cause = "trio-close-race"
         if parser.error:
             bad("wire-wellformed", f"conn {plan.index}: response stream does not parse: {parser.error}")
@@ -260,6 +269,11 @@ def _check(world: World, host: AppHost, session: Session, out: Outcome) -> None:
                         f"response that had to close the connection ({reasons or ['request body incomplete']}; "
                         f"response end {end_time}, close seen {closed_at})",
                         reason=(reasons or ["body-incomplete"])[0], cause=cause)
+                stop = True
+            elif not must_reuse and not nxt and ri >= len(parser.responses) \
+                    and conn.client.server_closed_at is not None:
+                # undecided region (request fully arrived, application did not read it all): the
+                # server chose to close after this response, which is admissible
                 stop = True
             elif must_reuse and not last and not nxt and mal != k + 1:
                 # a following pipelined request exists and nothing asked to close
